@@ -47,6 +47,14 @@ Theorem C04_no_fire_after_stop : forall d xs s t s' t2 id,
   tstep_do d s' (TFire t2 id) = None.
 Proof. exact no_fire_after_stop. Qed.
 
+(* leaving a state can fail without stopping the simulation (an on_exit event whose destination does
+   not know the event type): the exit actions run BEFORE the timer is stopped, so the FSM stays in
+   its state with everything - the pending timer included - untouched *)
+Theorem C04_failed_exit_keeps_timer : forall d s e dur nxt,
+  target d s e = Ok (Some nxt) -> leaving_fails d s = true ->
+  do_event d s e dur = (s, Err EUnknownEvent).
+Proof. exact failed_exit_keeps_timer. Qed.
+
 Theorem C04_agree_implies_monitor : forall k, tcase_agree k = true -> tcase_monitor k = true.
 Proof. exact timers_agree_implies_monitor. Qed.
 
@@ -58,3 +66,4 @@ Print Assumptions C04_rejected_timed_event.
 Print Assumptions C04_no_pending_after_stop.
 Print Assumptions C04_no_fire_after_stop.
 Print Assumptions C04_agree_implies_monitor.
+Print Assumptions C04_failed_exit_keeps_timer.
